@@ -64,7 +64,7 @@ type opRec struct {
 type resEntry struct {
 	Index  uint64
 	Nil    bool
-	Key    int // -1: not an account of the universe
+	Key    int // account index; -1: not an account of the universe
 	Name   string
 	Wallet string
 }
@@ -92,6 +92,19 @@ type history struct {
 	// live signer / chain state (harness side)
 	present  []bool
 	registry []vrec
+	pending  []string
+}
+
+// probe notes a probe from inside a simrt.Crit section (simrt.Probe takes the same lock).
+func (h *history) probe(name string) { h.pending = append(h.pending, name) }
+
+// flushProbes fires the noted probes; call it outside simrt.Crit.
+func (h *history) flushProbes() {
+	var p []string
+	simrt.Crit(func() { p, h.pending = h.pending, nil })
+	for _, n := range p {
+		simrt.Probe(n)
+	}
 }
 
 // ---- the beacon node's validators endpoint ----
@@ -132,11 +145,11 @@ func (p *valProvider) Validators(ctx context.Context, opts *api.ValidatorsOpts) 
 		vc.EndStep = simrt.Step()
 		switch out.Kind {
 		case "error":
-			simrt.Probe("fault:validators-error")
+			h.probe("fault:validators-error")
 			err = fmt.Errorf("bn Validators: %w", ErrSimulated)
 			return
 		case "empty":
-			simrt.Probe("fault:validators-empty")
+			h.probe("fault:validators-empty")
 			return
 		}
 		var keys []int
@@ -147,7 +160,7 @@ func (p *valProvider) Validators(ctx context.Context, opts *api.ValidatorsOpts) 
 			}
 		}
 		if out.Kind == "partial" && len(keys) > 1 {
-			simrt.Probe("fault:validators-partial")
+			h.probe("fault:validators-partial")
 			d := out.Drop % len(keys)
 			keys = append(append([]int{}, keys[:d]...), keys[d+1:]...)
 		} else if out.Kind == "partial" {
@@ -161,7 +174,7 @@ func (p *valProvider) Validators(ctx context.Context, opts *api.ValidatorsOpts) 
 				Index:   phase0.ValidatorIndex(r.Index),
 				Balance: bal,
 				Validator: &phase0.Validator{
-					PublicKey:                  PubKey(k),
+					PublicKey:                  PubKey(h.pl.Accts[k].Key),
 					WithdrawalCredentials:      make([]byte, 32),
 					EffectiveBalance:           phase0.Gwei(r.EffBal),
 					Slashed:                    r.Slashed,
@@ -173,19 +186,37 @@ func (p *valProvider) Validators(ctx context.Context, opts *api.ValidatorsOpts) 
 			}
 		}
 	})
+	h.flushProbes()
 	if err != nil {
 		return nil, err
 	}
 	return &api.Response[map[phase0.ValidatorIndex]*apiv1.Validator]{Data: res, Metadata: map[string]any{}}, nil
 }
 
+// keyOfPubKey maps a validator public key to the account (index in plan.Accts) it belongs to.
 func keyOfPubKey(pl *plan, pk phase0.BLSPubKey) (int, bool) {
-	for k := range pl.Accts {
-		if PubKey(k) == pk {
-			return k, true
+	for x, a := range pl.Accts {
+		if PubKey(a.Key) == pk {
+			return x, true
 		}
 	}
 	return -1, false
+}
+
+// identify maps a returned account to the universe by its validator public key
+// (the composite key of a distributed account), as the chain would.
+func identify(pl *plan, a e2wtypes.Account) (x int, name, wallet string) {
+	var pk phase0.BLSPubKey
+	if cp, ok := a.(e2wtypes.AccountCompositePublicKeyProvider); ok {
+		copy(pk[:], cp.CompositePublicKey().Marshal())
+	} else {
+		copy(pk[:], a.PublicKey().Marshal())
+	}
+	x, _ = keyOfPubKey(pl, pk)
+	if wp, ok := a.(e2wtypes.AccountWalletProvider); ok && wp.Wallet() != nil {
+		wallet = wp.Wallet().Name()
+	}
+	return x, a.Name(), wallet
 }
 
 // oracleEpoch is the epoch by the oracle's own arithmetic.
@@ -205,35 +236,35 @@ func (h *history) applyChanges(i int, c *Chain) {
 				r.Slashed = true
 				r.Exit = cur + 1 + uint64(ev.Delay)
 				r.Wd = r.Exit + 3
-				simrt.Probe("chain-slash")
+				h.probe("chain-slash")
 			}
 		case "exit":
 			if r.Known && r.Exit == far && r.Act != far {
 				r.Exit = cur + 1 + uint64(ev.Delay)
 				r.Wd = r.Exit + 2
-				simrt.Probe("chain-exit")
+				h.probe("chain-exit")
 			}
 		case "activate":
 			if r.Known && r.Act == far {
 				r.Elig, r.Act = cur, cur+1+uint64(ev.Delay)
-				simrt.Probe("chain-activate")
+				h.probe("chain-activate")
 			}
 		case "appear":
 			if !r.Known {
 				r.Known = true
-				simrt.Probe("chain-appear")
+				h.probe("chain-appear")
 			}
 		case "withdrawn":
 			if r.Known && r.Wd != far && r.Wd <= cur && r.EffBal != 0 {
 				r.EffBal = 0
-				simrt.Probe("chain-withdrawn")
+				h.probe("chain-withdrawn")
 			}
 		}
 	}
 	for _, ch := range h.pl.Changes {
 		if ch.BeforeOp == i && h.present[ch.Acct] != ch.Present {
 			h.present[ch.Acct] = ch.Present
-			simrt.Probe("signer-change")
+			h.probe("signer-change")
 		}
 	}
 }
@@ -246,8 +277,6 @@ type scenarioImpl interface {
 	build(ctx context.Context, h *history, vm validatorsmanager.Service, ct chaintime.Service, prov *ChainProviders) (manager, error)
 	// beforeOp makes the signer offer what the plan says for operation i.
 	beforeOp(h *history, i int)
-	// ident maps a returned account to the universe.
-	ident(h *history, a e2wtypes.Account) (key int, name, wallet string)
 	cleanup()
 }
 
@@ -297,8 +326,8 @@ func execPlan(impl scenarioImpl) func(plan any, sched *simrt.Tape) *sim.Outcome 
 			}
 
 			allKeys := make([]phase0.BLSPubKey, len(pl.Accts))
-			for k := range pl.Accts {
-				allKeys[k] = PubKey(k)
+			for k, a := range pl.Accts {
+				allKeys[k] = PubKey(a.Key)
 			}
 
 			// refresher task: the remaining operations, one after the other
@@ -315,6 +344,7 @@ func execPlan(impl scenarioImpl) func(plan any, sched *simrt.Tape) *sim.Outcome 
 						h.applyChanges(i, chain)
 						h.ops = append(h.ops, rec)
 					})
+					h.flushProbes()
 					impl.beforeOp(h, i)
 					simrt.Yield("c13/opcall")
 					rec.CallStep = simrt.Step()
@@ -375,7 +405,11 @@ func execPlan(impl scenarioImpl) func(plan any, sched *simrt.Tape) *sim.Outcome 
 							m, rec.Err = am.SyncCommitteeAccountsForEpochByIndex(ctx, phase0.Epoch(rec.Epoch), idx)
 						case "bypubkey":
 							var a e2wtypes.Account
-							a, rec.Err = am.AccountByPublicKey(ctx, PubKey(l.Key))
+							pk := PubKey(nobodyKey)
+							if l.Key < len(pl.Accts) {
+								pk = PubKey(pl.Accts[l.Key].Key)
+							}
+							a, rec.Err = am.AccountByPublicKey(ctx, pk)
 							if rec.Err == nil {
 								rec.Found = true
 								m = map[phase0.ValidatorIndex]e2wtypes.Account{0: a}
@@ -387,7 +421,7 @@ func execPlan(impl scenarioImpl) func(plan any, sched *simrt.Tape) *sim.Outcome 
 							if a == nil {
 								en.Nil = true
 							} else {
-								en.Key, en.Name, en.Wallet = impl.ident(h, a)
+								en.Key, en.Name, en.Wallet = identify(pl, a)
 							}
 							rec.Res = append(rec.Res, en)
 						}
